@@ -46,7 +46,7 @@ CLAIMS = {
  "C01": ("For each query of a 15-shape single-source catalogue (WHERE, projections, DISTINCT, ORDER BY, LIMIT, subquery in FROM, WITH, COALESCE) and every table within the bounds, the real pipeline "
          "(SQL parser, logical plan, typechecker, optimizer, Materialize, execution nodes, top-level ORDER BY/LIMIT wiring) executed symbolically returns exactly the multiset (and order) a hand-written reference of SQL semantics defines.",
          "Bounds: t(a,b) 0..2 (quick) / 0..3 (thorough) rows, cells Int over all 2^64 values or NULL. Partial: catalogue queries only, Int|NULL columns only.", "§5 C01"),
- "C04": ("Differential: for each of 30 rewrite-triggering query shapes and every pair of tables within the bounds, the plan after the real optimizer.Optimize fixpoint and the unoptimized plan, both materialised and run "
+ "C04": ("Differential: for each of 35 rewrite-triggering query shapes and every pair of tables within the bounds, the plan after the real optimizer.Optimize fixpoint and the unoptimized plan, both materialised and run "
          "symbolically on the same tables, return the same multiset of rows and the same error status; with a datasource that rejects push-down and one that accepts it; plus 7 queries over the REAL csv / json / lines datasources fed an arbitrary body through stdin.",
          "Bounds: t(a,b), u(a,b) 0..1 (quick) / 0..2 (thorough) rows, cells Int over all 2^64 values or NULL, w(a, l [Int]) for UNNEST; catalogue queries only; real-datasource bodies <= 2-3 arbitrary bytes after a fixed header; parquet is outside.", "§5 C04"),
  "C07": ("No Go runtime panic on any path, for: every function descriptor on arbitrary symbolic arguments of its declared types (all int64 values incl. 0, negatives, MinInt64), COALESCE with the real ObjectLayoutFixer, "
